@@ -387,8 +387,11 @@ class Template:
                     # the path of a module file derives from the URI alone:
                     # the file may have been generated from a template of
                     # that URI in another directory
-                    or getattr(module, "_template_filename", filename)
-                    != filename
+                    # (whatever the spelling of either path)
+                    or os.path.abspath(
+                        getattr(module, "_template_filename", filename)
+                    )
+                    != os.path.abspath(filename)
                 ):
                     data = util.read_file(filename)
                     with _drop_expression_warnings():
